@@ -98,7 +98,6 @@ class CtrlHarness(Harness):
         self.c = {n: self.cover(n) for n in cov}
         self.a = {n: self.assume(n) for n in ["legal", "no_hsk", "no_set_address", "no_setup_other_ep", "fresh_setup",
                                               "prefix_no_state_change"]}
-        self.kf_malformed = self.kf("malformed_standard_request")
 
     def elaborate(self, platform):
         m = Module()
@@ -137,17 +136,6 @@ class CtrlHarness(Harness):
                 m.d.usb += g_out_seen.eq(1)          # an OUT or PING token on endpoint 0 ends an IN data stage [USB 2.0 8.5.3]
             with m.Elif((hA.cur_kind == KIND_IN) & to_us & ep0):
                 m.d.usb += g_in_seen.eq(1)
-        # recorded finding: the standard-request handlers do not validate direction / wLength.  A GET_STATUS / GET_DESCRIPTOR /
-        # GET_CONFIGURATION request whose status stage is an IN transaction (direction OUT, or wLength = 0) gets a bare ACK
-        # handshake on that IN token; a SET_ADDRESS / SET_CONFIGURATION / CLEAR_FEATURE request sent with direction IN and
-        # wLength > 0 gets its status "ZLP" as a data packet in reply to the status-stage OUT transaction.
-        g_getreq_status_in = Signal()
-        with m.If(hA.slot_end & ~hA.done & valid_setup):
-            is_get = (sd[8:16] == 0) | (sd[8:16] == 6) | (sd[8:16] == 8)
-            is_set = (sd[8:16] == 1) | (sd[8:16] == 5) | (sd[8:16] == 9)
-            m.d.usb += g_getreq_status_in.eq((sd[5:7] == 0) & (
-                (is_get & (~sd[7] | (sd[48:64] == 0))) | (is_set & (sd[7] | (sd[48:64] != 0)))))
-        m.d.comb += self.kf_malformed.eq(g_getreq_status_in)
         # ---- per-slot judgement of what device A transmitted (evaluated in the last cycle of the slot)
         judge = hA.slot_end & ~hA.done
         sent = spyA.count != 0
